@@ -839,12 +839,15 @@ func (r *runner) modelIDs() []string {
 }
 
 // closeAndCheckFile closes the session and compares the closed database file with the model.
-func (r *runner) closeAndCheckFile() bool {
+func (r *runner) closeAndCheckFile(inspect bool) bool {
 	err := r.s.Close()
 	r.s = nil
 	if err != nil {
 		r.fail("C14.seq.close.error", "Session.Close: %v", err)
 		return false
+	}
+	if !inspect {
+		return true
 	}
 	ids, started, err := closedDBIDs(r.cfg.Database)
 	if err != nil {
@@ -864,7 +867,9 @@ func (r *runner) closeAndCheckFile() bool {
 
 // doReopen: Close, inspect the file, NewSession on the same file, compare every torrent with its record.
 func (r *runner) doReopen(counted bool) {
-	if !r.closeAndCheckFile() {
+	// the closed file is inspected read-only for the explicit operation; the implicit final restart relies on
+	// NewSession itself (an orphan or missing bucket shows up as restart.extra / restart.missing)
+	if !r.closeAndCheckFile(counted) {
 		if r.s == nil && r.res.Harness == "" {
 			// Close failed: try to continue with a new session anyway
 			if err := r.openSession(); err != nil {
@@ -1083,7 +1088,7 @@ func runHistory(ops []op, base, seq int) (res *histResult) {
 	}
 	if r.s != nil {
 		if len(ops) > 0 && ops[len(ops)-1].K == "reopen" {
-			r.closeAndCheckFile()
+			r.closeAndCheckFile(true)
 		} else {
 			// the file was inspected before the implicit restart; nothing but the restart happened since
 			err := r.s.Close()
@@ -1154,9 +1159,9 @@ func TestC14Seq(t *testing.T) {
 		}
 		seq := 0
 		if pp := os.Getenv("VERIF_C14_PPROF"); pp != "" {
-			f, _ := os.Create(pp)
+			f, _ := os.Create(fmt.Sprintf("%s.%d", pp, os.Getpid()))
 			pprof.StartCPUProfile(f)
-			go func() { time.Sleep(8 * time.Second); pprof.StopCPUProfile(); f.Close() }()
+			go func() { time.Sleep(3 * time.Second); pprof.StopCPUProfile(); f.Close() }()
 		}
 		core.WorkerMain(func(job core.Job) json.RawMessage {
 			var ops []op
